@@ -371,7 +371,10 @@ class Report:
         for what, obj in self.violations:
             k = None
             for kf in known:
-                if kf.get("match") and kf["match"] in what:
+                ms = kf.get("match")
+                if isinstance(ms, str):
+                    ms = [ms]
+                if ms and all(m in what for m in ms):
                     k = kf
                     break
             if k is not None:
